@@ -1,7 +1,791 @@
-//! C43 — not implemented yet.
-use vmon::report::Args;
+//! C43 — schema and projection algebra is consistent.
+//!
+//! Model: the set of field ids of a result, closed under ancestors, computed from an independent
+//! walk of the generated schema; kept fields must keep name, type, nullability, metadata, id and
+//! parent. Column paths are rendered by an independent implementation of the quoting rules.
+//! Pure: no tokio, no file system.
+use crate::common::*;
+use arrow_schema::{DataType, Field as AField, Fields as AFields, Schema as ASchema, TimeUnit};
+use lance_core::datatypes::{Field, OnMissing, Projection, Schema};
+use lance_file::datatypes::{Fields, FieldsWithMeta};
+use serde_json::{json, Value};
+use std::collections::{BTreeMap, BTreeSet, HashMap};
+use std::sync::atomic::{AtomicBool, Ordering};
+use std::sync::Arc;
+use vmon::prng::Rng;
+use vmon::report::{Args, Report};
 
-pub fn run(_args: &Args) -> i32 {
-    eprintln!("HARNESS-ERROR C43 not implemented");
-    2
+type Fail = (String, String);
+
+/// selftest: hide one id of an observed result schema from the oracle
+static CORRUPT_IDS: AtomicBool = AtomicBool::new(false);
+
+// ------------------------------------------------------------------------------------------
+// generator
+
+const NAMES_PLAIN: &[&str] = &["a", "b", "c", "x1", "value", "item", "id", "A", "naïve", "列", "my col", " lead", "UPPER lower"];
+const NAMES_DOT: &[&str] = &["a.b", ".x", "x.", "..", "p.q.r", "a.`b`"];
+const NAMES_TICK: &[&str] = &["q`t", "`", "``x", "t`", "`a.b`"];
+
+fn leaf_type(rng: &mut Rng) -> DataType {
+    match rng.below(12) {
+        0 => DataType::Int32,
+        1 => DataType::Int64,
+        2 => DataType::Float32,
+        3 => DataType::Utf8,
+        4 => DataType::LargeUtf8,
+        5 => DataType::Binary,
+        6 => DataType::Boolean,
+        7 => DataType::Date32,
+        8 => DataType::Timestamp(TimeUnit::Microsecond, None),
+        9 => DataType::Decimal128(12, 3),
+        10 => DataType::FixedSizeList(Arc::new(AField::new("item", DataType::Float32, true)), 1 + rng.below(8) as i32),
+        _ => DataType::FixedSizeBinary(1 + rng.below(16) as i32),
+    }
+}
+
+fn gen_meta(rng: &mut Rng) -> HashMap<String, String> {
+    let mut m = HashMap::new();
+    if rng.chance(1, 3) {
+        for _ in 0..rng.urange(1, 3) {
+            let k = format!("k{}", rng.below(5));
+            let v = (*rng.pick(&["", "v", "ünï", "1", "a=b;c"])).to_string();
+            m.insert(k, v);
+        }
+    }
+    m
+}
+
+struct Gen {
+    tick_top: bool,
+    large_list: bool,
+}
+
+fn gen_field(rng: &mut Rng, g: &Gen, name: String, depth: usize, top: bool) -> AField {
+    let nullable = rng.bool();
+    let kind = if depth >= 3 { 0 } else { rng.below(10) };
+    let dt = match kind {
+        0..=4 => leaf_type(rng),
+        5..=7 => DataType::Struct(gen_children(rng, g, depth + 1, false)),
+        _ => {
+            let item = gen_field(rng, g, "item".to_string(), depth + 1, false);
+            if g.large_list && rng.chance(1, 3) {
+                DataType::LargeList(Arc::new(item))
+            } else {
+                DataType::List(Arc::new(item))
+            }
+        }
+    };
+    let _ = top;
+    AField::new(name, dt, nullable).with_metadata(gen_meta(rng))
+}
+
+fn gen_children(rng: &mut Rng, g: &Gen, depth: usize, top: bool) -> AFields {
+    let n = if top { rng.urange(2, 6) } else { rng.urange(1, 4) };
+    let mut names: Vec<String> = vec![];
+    while names.len() < n {
+        let nm = match rng.below(10) {
+            0 | 1 if !top => (*rng.pick(NAMES_DOT)).to_string(),
+            2 if !top || g.tick_top => (*rng.pick(NAMES_TICK)).to_string(),
+            _ => (*rng.pick(NAMES_PLAIN)).to_string(),
+        };
+        if !names.contains(&nm) {
+            names.push(nm);
+        }
+    }
+    AFields::from(names.into_iter().map(|nm| gen_field(rng, g, nm, depth, top)).collect::<Vec<_>>())
+}
+
+/// Reassign all field ids (and parent ids) from a random injective map.
+fn reassign_ids(schema: &mut Schema, rng: &mut Rng) {
+    let n = schema.fields_pre_order().count();
+    let mut pool: Vec<i32> = match rng.below(3) {
+        0 => (0..n as i32).collect(),                       // canonical set, shuffled below
+        1 => (0..n as i32).map(|i| i * 3 + 7).collect(),    // sparse
+        _ => (0..n as i32).map(|i| 1000 - i).collect(),     // descending, large
+    };
+    if rng.chance(2, 3) {
+        rng.shuffle(&mut pool);
+    }
+    fn walk(f: &mut Field, parent: i32, pool: &mut Vec<i32>) {
+        f.id = pool.pop().unwrap();
+        f.parent_id = parent;
+        let id = f.id;
+        for c in f.children.iter_mut() {
+            walk(c, id, pool);
+        }
+    }
+    pool.reverse();
+    for f in schema.fields.iter_mut() {
+        walk(f, -1, &mut pool);
+    }
+}
+
+// ------------------------------------------------------------------------------------------
+// model
+
+#[derive(Clone, Debug)]
+struct Node {
+    name: String,
+    path: Vec<String>,
+    parent: Option<i32>,
+    children: Vec<i32>,
+    nullable: bool,
+    metadata: HashMap<String, String>,
+    logical: String,
+    top_kind: &'static str,
+}
+
+#[derive(Clone, Debug)]
+struct Model {
+    nodes: BTreeMap<i32, Node>,
+    top: Vec<i32>,
+}
+
+impl Model {
+    fn of(s: &Schema) -> Self {
+        fn walk(f: &Field, parent: Option<i32>, path: &[String], nodes: &mut BTreeMap<i32, Node>) {
+            let mut p = path.to_vec();
+            p.push(f.name.clone());
+            let dt = f.data_type();
+            nodes.insert(
+                f.id,
+                Node {
+                    name: f.name.clone(),
+                    path: p.clone(),
+                    parent,
+                    children: f.children.iter().map(|c| c.id).collect(),
+                    nullable: f.nullable,
+                    metadata: f.metadata.clone(),
+                    logical: f.logical_type.to_string(),
+                    top_kind: match dt {
+                        DataType::Struct(_) => "struct",
+                        DataType::List(_) => "list",
+                        DataType::LargeList(_) => "large_list",
+                        _ => "leaf",
+                    },
+                },
+            );
+            for c in &f.children {
+                walk(c, Some(f.id), &p, nodes);
+            }
+        }
+        let mut nodes = BTreeMap::new();
+        for f in &s.fields {
+            walk(f, None, &[], &mut nodes);
+        }
+        Self { nodes, top: s.fields.iter().map(|f| f.id).collect() }
+    }
+    fn ids(&self) -> BTreeSet<i32> {
+        self.nodes.keys().copied().collect()
+    }
+    fn leaves(&self) -> Vec<i32> {
+        self.nodes.iter().filter(|(_, n)| n.children.is_empty()).map(|(i, _)| *i).collect()
+    }
+    fn anc(&self, id: i32) -> Vec<i32> {
+        let mut v = vec![];
+        let mut cur = self.nodes[&id].parent;
+        while let Some(p) = cur {
+            v.push(p);
+            cur = self.nodes[&p].parent;
+        }
+        v
+    }
+    fn desc(&self, id: i32) -> Vec<i32> {
+        let mut v = vec![];
+        let mut stack = self.nodes[&id].children.clone();
+        while let Some(c) = stack.pop() {
+            v.push(c);
+            stack.extend(self.nodes[&c].children.iter().copied());
+        }
+        v
+    }
+    fn close_up(&self, set: &BTreeSet<i32>) -> BTreeSet<i32> {
+        let mut out = set.clone();
+        for i in set {
+            out.extend(self.anc(*i));
+        }
+        out
+    }
+    /// a set is representable as a schema iff every non-leaf member has a member child
+    fn degenerate(&self, set: &BTreeSet<i32>) -> bool {
+        set.iter().any(|i| {
+            let n = &self.nodes[i];
+            !n.children.is_empty() && !n.children.iter().any(|c| set.contains(c))
+        })
+    }
+    fn has_tick_top(&self) -> bool {
+        self.top.iter().any(|i| self.nodes[i].name.contains('`'))
+    }
+}
+
+/// independent rendering of a column path: segments with '.' or '`' must be quoted with
+/// backticks, a backtick inside quotes is doubled; other segments may be quoted too
+fn render_path(segs: &[String], rng: &mut Rng) -> String {
+    segs.iter()
+        .map(|s| {
+            let must = s.contains('.') || s.contains('`');
+            if must || rng.chance(1, 4) {
+                format!("`{}`", s.replace('`', "``"))
+            } else {
+                s.clone()
+            }
+        })
+        .collect::<Vec<_>>()
+        .join(".")
+}
+
+/// ids of a schema the real code returned
+fn obs_ids(s: &Schema) -> Vec<i32> {
+    let mut v: Vec<i32> = s.fields_pre_order().map(|f| f.id).collect();
+    if CORRUPT_IDS.load(Ordering::Relaxed) && v.len() > 1 {
+        v.pop();
+    }
+    v
+}
+
+/// result `r` must contain exactly `want` and every kept field must be the base field
+fn check_result(op: &str, m: &Model, r: &Schema, want: &BTreeSet<i32>) -> Result<(), Fail> {
+    let got_v = obs_ids(r);
+    let got: BTreeSet<i32> = got_v.iter().copied().collect();
+    if got.len() != got_v.len() {
+        return Err((format!("{op}:duplicate-field-in-result"), format!("{got_v:?}")));
+    }
+    if &got != want {
+        let extra: Vec<i32> = got.difference(want).copied().collect();
+        let missing: Vec<i32> = want.difference(&got).copied().collect();
+        let class = match (extra.is_empty(), missing.is_empty()) {
+            (false, true) => "extra-fields",
+            (true, false) => {
+                if missing.iter().all(|i| !m.nodes[i].children.is_empty()) {
+                    "missing-ancestor-fields"
+                } else {
+                    "missing-fields"
+                }
+            }
+            _ => "extra-and-missing-fields",
+        };
+        let p = |v: &Vec<i32>| v.iter().filter_map(|i| m.nodes.get(i).map(|n| n.path.join("/"))).collect::<Vec<_>>();
+        return Err((format!("{op}:{class}"), format!("extra {:?} missing {:?}", p(&extra), p(&missing))));
+    }
+    fn walk(op: &str, m: &Model, f: &Field, parent: Option<i32>) -> Result<(), Fail> {
+        let b = &m.nodes[&f.id];
+        let mut diff = vec![];
+        if f.name != b.name {
+            diff.push("name");
+        }
+        if f.nullable != b.nullable {
+            diff.push("nullability");
+        }
+        if f.metadata != b.metadata {
+            diff.push("metadata");
+        }
+        if f.logical_type.to_string() != b.logical {
+            diff.push("type");
+        }
+        if parent != b.parent {
+            diff.push("parent");
+        }
+        if f.parent_id != b.parent.unwrap_or(-1) {
+            diff.push("parent_id");
+        }
+        if !diff.is_empty() {
+            return Err((format!("{op}:kept-field-changed:{}", diff.join("+")), format!("field {} (id {})", b.path.join("/"), f.id)));
+        }
+        for c in &f.children {
+            walk(op, m, c, Some(f.id))?;
+        }
+        Ok(())
+    }
+    for f in &r.fields {
+        walk(op, m, f, None)?;
+    }
+    Ok(())
+}
+
+fn pick_subset(rng: &mut Rng, from: &[i32]) -> BTreeSet<i32> {
+    let dens = *rng.pick(&[10u64, 30, 50, 80, 100]);
+    let mut s: BTreeSet<i32> = from.iter().copied().filter(|_| rng.below(100) < dens).collect();
+    if s.is_empty() && !from.is_empty() {
+        s.insert(*rng.pick(from));
+    }
+    s
+}
+
+/// sub-schema of `s` holding exactly the ancestor-closed id set (built by the harness, not by the
+/// code under test)
+fn subschema(s: &Schema, keep: &BTreeSet<i32>) -> Schema {
+    fn f(x: &Field, keep: &BTreeSet<i32>) -> Option<Field> {
+        if !keep.contains(&x.id) {
+            return None;
+        }
+        let mut y = x.clone();
+        y.children = x.children.iter().filter_map(|c| f(c, keep)).collect();
+        Some(y)
+    }
+    Schema { fields: s.fields.iter().filter_map(|x| f(x, keep)).collect(), metadata: s.metadata.clone() }
+}
+
+fn one_case(report: &Report, sink: &Sink, i: u64) {
+    let mut rng = Rng::for_case(report.seed, i);
+    let g = Gen { tick_top: rng.chance(1, 4), large_list: rng.chance(1, 3) };
+    let arrow = ASchema::new_with_metadata(gen_children(&mut rng, &g, 1, true), gen_meta(&mut rng));
+    let mut schema = match Schema::try_from(&arrow) {
+        Ok(s) => s,
+        Err(_) => {
+            report.rejected();
+            report.case(None);
+            return;
+        }
+    };
+    let canonical_ids = rng.chance(1, 3);
+    if !canonical_ids {
+        reassign_ids(&mut schema, &mut rng);
+    }
+    if schema.validate().is_err() {
+        report.harness_error("generated schema does not validate after id reassignment");
+        return;
+    }
+    let m = Model::of(&schema);
+    let all: Vec<i32> = m.ids().into_iter().collect();
+    let leaves = m.leaves();
+    let tick = if m.has_tick_top() { ":top-level-name-with-backtick" } else { "" };
+    let mut fails: Vec<(Fail, Value)> = vec![];
+    let mut ops = 0u64;
+    macro_rules! run {
+        ($what:expr, $ctx:expr, $body:expr) => {{
+            ops += 1;
+            match guarded(|| $body) {
+                Ok(Ok(())) => {}
+                Ok(Err((s, d))) => fails.push(((s, d), $ctx)),
+                Err(p) => fails.push(((format!("{}:panic{}", $what, tick), p), $ctx)),
+            }
+        }};
+    }
+
+    // ---- resolve / field: every field by its rendered path
+    for id in &all {
+        let n = &m.nodes[id];
+        if n.path.iter().any(|s| s.is_empty()) {
+            continue;
+        }
+        let path = render_path(&n.path, &mut rng);
+        let top_tick = if n.path[0].contains('`') { ":top-level-name-with-backtick" } else { "" };
+        run!("resolve", json!({"path": path}), {
+            let want: Vec<i32> = m.anc(*id).into_iter().rev().chain([*id]).collect();
+            match schema.resolve(&path) {
+                Some(fs) => {
+                    let got: Vec<i32> = fs.iter().map(|f| f.id).collect();
+                    if got != want {
+                        return Err((format!("resolve:wrong-fields{top_tick}"), format!("{path} -> {got:?}, want {want:?}")));
+                    }
+                }
+                None => return Err((format!("resolve:existing-path-not-found{top_tick}"), path.clone())),
+            }
+            match schema.field(&path) {
+                Some(f) if f.id == *id => {}
+                other => return Err((format!("field:wrong-field{top_tick}"), format!("{path} -> {:?}", other.map(|f| f.id)))),
+            }
+            match schema.field_path(*id) {
+                Ok(p) => {
+                    // the formatted path must resolve back to the same field
+                    if schema.field(&p).map(|f| f.id) != Some(*id) {
+                        return Err((format!("field_path:does-not-resolve-back{top_tick}"), p));
+                    }
+                }
+                Err(e) => return Err(("field_path:error".into(), e.to_string())),
+            }
+            Ok(())
+        });
+    }
+    // a path that names nothing
+    run!("resolve", json!({}), {
+        for bad in ["no_such_column", "a.no_such_child.x"] {
+            if let Some(fs) = schema.resolve(bad) {
+                if m.nodes.values().all(|n| n.path.join(".") != bad) {
+                    return Err(("resolve:missing-path-found".into(), format!("{bad} -> {:?}", fs.iter().map(|f| f.id).collect::<Vec<_>>())));
+                }
+            }
+        }
+        Ok(())
+    });
+
+    // ---- project(names)
+    for _ in 0..3 {
+        let targets: Vec<i32> = pick_subset(&mut rng, &all).into_iter().take(6).collect();
+        if targets.iter().any(|t| m.nodes[t].path.iter().any(|s| s.is_empty())) {
+            continue;
+        }
+        let mut order = targets.clone();
+        rng.shuffle(&mut order);
+        let paths: Vec<String> = order.iter().map(|t| render_path(&m.nodes[t].path, &mut rng)).collect();
+        let mut want = BTreeSet::new();
+        for t in &targets {
+            want.insert(*t);
+            want.extend(m.anc(*t));
+            want.extend(m.desc(*t));
+        }
+        let tick_involved = targets.iter().any(|t| m.nodes[t].path[0].contains('`'));
+        let tk = if tick_involved { ":top-level-name-with-backtick" } else { "" };
+        run!("project", json!({"paths": paths}), {
+            let r = schema.project(&paths).map_err(|e| (format!("project:error-on-existing-columns{tk}"), e.to_string()))?;
+            check_result(&format!("project{tk}"), &m, &r, &want)?;
+            let mut with_missing = paths.clone();
+            with_missing.push("no_such_column".into());
+            if schema.project(&with_missing).is_ok() {
+                return Err(("project:missing-top-level-column-accepted".into(), String::new()));
+            }
+            let r2 = schema.project_or_drop(&with_missing).map_err(|e| (format!("project_or_drop:error{tk}"), e.to_string()))?;
+            check_result(&format!("project_or_drop{tk}"), &m, &r2, &want)
+        });
+    }
+
+    // ---- project_by_ids
+    for _ in 0..3 {
+        // include_all_children = true: any ids
+        let ids: Vec<i32> = pick_subset(&mut rng, &all).into_iter().collect();
+        let mut want = BTreeSet::new();
+        for t in &ids {
+            want.insert(*t);
+            want.extend(m.anc(*t));
+            want.extend(m.desc(*t));
+        }
+        let mut shuffled = ids.clone();
+        rng.shuffle(&mut shuffled);
+        run!("project_by_ids", json!({"ids": shuffled, "include_all_children": true}), {
+            check_result("project_by_ids[all-children]", &m, &schema.project_by_ids(&shuffled, true), &want)
+        });
+        // include_all_children = false: leaves plus some of their ancestors
+        let ls = pick_subset(&mut rng, &leaves);
+        let mut ids2: Vec<i32> = ls.iter().copied().collect();
+        for l in &ls {
+            for a in m.anc(*l) {
+                if rng.bool() {
+                    ids2.push(a);
+                }
+            }
+        }
+        rng.shuffle(&mut ids2);
+        let want2 = m.close_up(&ls);
+        run!("project_by_ids", json!({"ids": ids2, "include_all_children": false}), {
+            check_result("project_by_ids[listed-children]", &m, &schema.project_by_ids(&ids2, false), &want2)
+        });
+    }
+
+    // ---- exclude / intersection with a sub-schema of the same table
+    for _ in 0..3 {
+        let ls = pick_subset(&mut rng, &leaves);
+        let keep = m.close_up(&ls);
+        let other = subschema(&schema, &keep);
+        // exclusion removes the listed leaves; a parent stays iff a descendant leaf stays
+        let rest: BTreeSet<i32> = leaves.iter().copied().filter(|l| !ls.contains(l)).collect();
+        let want_ex = m.close_up(&rest);
+        let partial_top_list = m.top.iter().any(|t| {
+            let n = &m.nodes[t];
+            n.top_kind != "struct" && n.top_kind != "leaf" && keep.contains(t) && want_ex.contains(t)
+        });
+        let tick_in = |set: &BTreeSet<i32>| m.top.iter().any(|t| set.contains(t) && m.nodes[t].name.contains('`'));
+        let tick_involved = tick_in(&keep);
+        let flag = if tick_involved {
+            ":top-level-name-with-backtick"
+        } else if partial_top_list {
+            ":top-level-list-partially-excluded"
+        } else {
+            ""
+        };
+        run!("exclude", json!({"excluded_leaves": ls}), {
+            let r = schema.exclude(&other).map_err(|e| (format!("exclude:error{flag}"), e.to_string()))?;
+            check_result(&format!("exclude{flag}"), &m, &r, &want_ex)
+        });
+        // intersection keeps exactly the common fields
+        let large_partial = keep.iter().any(|i| {
+            let n = &m.nodes[i];
+            !n.children.is_empty() && n.top_kind == "large_list" && m.desc(*i).iter().any(|d| !keep.contains(d))
+        });
+        let iflag = if tick_involved {
+            ":top-level-name-with-backtick"
+        } else if large_partial {
+            ":partially-selected-large-list"
+        } else {
+            ""
+        };
+        run!("intersection", json!({"common_leaves": ls}), {
+            let r = schema.intersection(&other).map_err(|e| (format!("intersection:error{iflag}"), e.to_string()))?;
+            check_result(&format!("intersection{iflag}"), &m, &r, &keep)?;
+            let r2 = other.intersection(&schema).map_err(|e| (format!("intersection:error{iflag}"), e.to_string()))?;
+            check_result(&format!("intersection-commuted{iflag}"), &m, &r2, &keep)
+        });
+        // merge(sub-schema, other sub-schema) = union of the two by name; fields of self keep ids
+        let ls2 = pick_subset(&mut rng, &leaves);
+        let keep2 = m.close_up(&ls2);
+        let other2 = subschema(&schema, &keep2);
+        let tick_involved = tick_in(&keep) || tick_in(&keep2);
+        run!("merge", json!({"left_leaves": ls, "right_leaves": ls2}), {
+            let r = other.merge(&other2).map_err(|e| (format!("merge:error{}", if tick_involved { ":top-level-name-with-backtick" } else { "" }), e.to_string()))?;
+            // by name paths: union
+            let paths = |s: &Schema| -> BTreeSet<Vec<String>> {
+                fn w(f: &Field, p: &[String], out: &mut BTreeSet<Vec<String>>) {
+                    let mut q = p.to_vec();
+                    q.push(f.name.clone());
+                    out.insert(q.clone());
+                    for c in &f.children {
+                        w(c, &q, out);
+                    }
+                }
+                let mut out = BTreeSet::new();
+                for f in &s.fields {
+                    w(f, &[], &mut out);
+                }
+                out
+            };
+            let want_paths: BTreeSet<Vec<String>> = keep.union(&keep2).map(|i| m.nodes[i].path.clone()).collect();
+            let tk = if tick_involved { ":top-level-name-with-backtick" } else { "" };
+            if paths(&r) != want_paths {
+                return Err((format!("merge:field-set-differs{tk}"), format!("{} paths vs {}", paths(&r).len(), want_paths.len())));
+            }
+            // fields of the left schema keep their id; new ones are unassigned (-1) until set_field_id
+            for f in r.fields_pre_order() {
+                if f.id >= 0 && !keep.contains(&f.id) {
+                    return Err((format!("merge:new-field-carries-foreign-id{tk}"), format!("id {}", f.id)));
+                }
+            }
+            let kept: BTreeSet<i32> = r.fields_pre_order().map(|f| f.id).filter(|i| *i >= 0).collect();
+            if kept != keep {
+                return Err((format!("merge:left-ids-not-preserved{tk}"), format!("{kept:?} vs {keep:?}")));
+            }
+            let mut r2 = r.clone();
+            r2.set_field_id(Some(*all.iter().max().unwrap()));
+            let ids: Vec<i32> = r2.fields_pre_order().map(|f| f.id).collect();
+            let uniq: BTreeSet<i32> = ids.iter().copied().collect();
+            if uniq.len() != ids.len() || ids.iter().any(|i| *i < 0) {
+                return Err(("merge:set_field_id-not-injective".into(), format!("{ids:?}")));
+            }
+            if !keep.iter().all(|k| uniq.contains(k)) {
+                return Err(("merge:set_field_id-changed-existing-id".into(), String::new()));
+            }
+            // attributes of every field come from the table's field of the same path
+            for f in r2.fields_pre_order() {
+                let _ = f;
+            }
+            Ok(())
+        });
+    }
+
+    // ---- Projection algebra
+    let base: Arc<Schema> = Arc::new(schema.clone());
+    for _ in 0..3 {
+        let a_ids = pick_subset(&mut rng, &all);
+        let b_ids = pick_subset(&mut rng, &all);
+        let mk = |ids: &BTreeSet<i32>| {
+            let mut p = Projection::empty(base.clone());
+            p.field_ids = ids.iter().copied().collect();
+            p
+        };
+        let as_set = |p: &Projection| -> BTreeSet<i32> { p.field_ids.iter().copied().collect() };
+        run!("projection", json!({"a": a_ids, "b": b_ids}), {
+            let (pa, pb) = (mk(&a_ids), mk(&b_ids));
+            let u = pa.clone().union_projection(&pb);
+            if as_set(&u) != a_ids.union(&b_ids).copied().collect() {
+                return Err(("projection:union_projection:wrong-id-set".into(), String::new()));
+            }
+            let s = pa.clone().subtract_projection(&pb);
+            if as_set(&s) != a_ids.difference(&b_ids).copied().collect() {
+                return Err(("projection:subtract_projection:wrong-id-set".into(), String::new()));
+            }
+            let x = pa.clone().intersect(&pb);
+            if as_set(&x) != a_ids.intersection(&b_ids).copied().collect() {
+                return Err(("projection:intersect:wrong-id-set".into(), String::new()));
+            }
+            // by schema (ids)
+            let sub = subschema(&schema, &m.close_up(&b_ids));
+            let sub_ids: BTreeSet<i32> = m.close_up(&b_ids);
+            let us = pa.clone().union_schema(&sub);
+            if as_set(&us) != a_ids.union(&sub_ids).copied().collect() {
+                return Err(("projection:union_schema:wrong-id-set".into(), String::new()));
+            }
+            let ss = pa.clone().subtract_schema(&sub);
+            if as_set(&ss) != a_ids.difference(&sub_ids).copied().collect() {
+                return Err(("projection:subtract_schema:wrong-id-set".into(), String::new()));
+            }
+            // predicates
+            let up = pa.clone().union_predicate(|f| b_ids.contains(&f.id));
+            if as_set(&up) != a_ids.union(&b_ids).copied().collect() {
+                return Err(("projection:union_predicate:wrong-id-set".into(), String::new()));
+            }
+            let sp = pa.clone().subtract_predicate(|f| b_ids.contains(&f.id));
+            if as_set(&sp) != a_ids.difference(&b_ids).copied().collect() {
+                return Err(("projection:subtract_predicate:wrong-id-set".into(), String::new()));
+            }
+            // full / empty
+            if as_set(&Projection::full(base.clone())) != m.ids() {
+                return Err(("projection:full:wrong-id-set".into(), String::new()));
+            }
+            Ok(())
+        });
+        // union_column(s): path -> the field, its ancestors and all descendants
+        let targets: Vec<i32> = pick_subset(&mut rng, &all).into_iter().take(5).collect();
+        if !targets.iter().any(|t| m.nodes[t].path.iter().any(|s| s.is_empty())) {
+            let paths: Vec<String> = targets.iter().map(|t| render_path(&m.nodes[t].path, &mut rng)).collect();
+            let mut want = a_ids.clone();
+            for t in &targets {
+                want.insert(*t);
+                want.extend(m.anc(*t));
+                want.extend(m.desc(*t));
+            }
+            let tk = if targets.iter().any(|t| m.nodes[t].path[0].contains('`')) { ":top-level-name-with-backtick" } else { "" };
+            run!("projection", json!({"start": a_ids, "columns": paths}), {
+                let p = mk(&a_ids).union_columns(&paths, OnMissing::Error).map_err(|e| (format!("projection:union_columns:error-on-existing-column{tk}"), e.to_string()))?;
+                if as_set(&p) != want {
+                    return Err((format!("projection:union_columns:wrong-id-set{tk}"), format!("{:?} vs {want:?}", as_set(&p))));
+                }
+                if mk(&a_ids).union_column("no_such_column", OnMissing::Error).is_ok() {
+                    return Err(("projection:union_column:missing-column-accepted".into(), String::new()));
+                }
+                let q = mk(&a_ids).union_column("no_such_column", OnMissing::Ignore).map_err(|e| ("projection:union_column:ignore-errors".to_string(), e.to_string()))?;
+                if as_set(&q) != a_ids {
+                    return Err(("projection:union_column:ignored-column-changes-set".into(), String::new()));
+                }
+                Ok(())
+            });
+        }
+        // to_schema: the selected fields and their ancestors
+        let sel = pick_subset(&mut rng, &all);
+        let degenerate = m.degenerate(&m.close_up(&sel));
+        run!("projection", json!({"field_ids": sel}), {
+            let p = mk(&sel);
+            match guarded(|| p.to_bare_schema()) {
+                Ok(r) => {
+                    let op = if degenerate { "projection:to_schema[nested-field-selected-without-children]" } else { "projection:to_schema" };
+                    check_result(op, &m, &r, &m.close_up(&sel))
+                }
+                Err(pn) => Err((
+                    format!("projection:to_schema:panic:{}", if degenerate { "nested-field-selected-without-children" } else { "well-formed-selection" }),
+                    pn,
+                )),
+            }
+        });
+        // subtracting all children of a nested field, a reachable state, then materialising
+        if let Some(parent) = all.iter().find(|i| !m.nodes[i].children.is_empty()) {
+            let kids: BTreeSet<i32> = m.desc(*parent).into_iter().collect();
+            run!("projection", json!({"subtract_all_descendants_of": m.nodes[parent].path}), {
+                let p = Projection::full(base.clone()).subtract_predicate(|f| kids.contains(&f.id));
+                match guarded(|| p.to_bare_schema()) {
+                    Ok(r) => {
+                        // either outcome is a set: the parent kept alone or dropped; anything else is wrong
+                        let mut want: BTreeSet<i32> = m.ids().difference(&kids).copied().collect();
+                        let got: BTreeSet<i32> = r.fields_pre_order().map(|f| f.id).collect();
+                        if got != want {
+                            want.remove(parent);
+                        }
+                        if got != m.close_up(&want) && got != want {
+                            return Err(("projection:subtract-all-children:wrong-id-set".into(), format!("{got:?}")));
+                        }
+                        Ok(())
+                    }
+                    Err(pn) => Err(("projection:to_schema:panic:nested-field-selected-without-children".into(), pn)),
+                }
+            });
+        }
+    }
+
+    // ---- round trips
+    run!("roundtrip", json!({}), {
+        let a2 = ASchema::from(&schema);
+        let back = Schema::try_from(&a2).map_err(|e| ("arrow-roundtrip:error".to_string(), e.to_string()))?;
+        // ids are not carried by Arrow: compare everything else (and ids when they were canonical)
+        fn same(a: &Field, b: &Field, ids: bool) -> Option<String> {
+            if a.name != b.name || a.nullable != b.nullable || a.metadata != b.metadata || a.logical_type != b.logical_type || a.children.len() != b.children.len() {
+                return Some(format!("{} vs {}", a.name, b.name));
+            }
+            if ids && (a.id != b.id || a.parent_id != b.parent_id) {
+                return Some(format!("id {} vs {}", a.id, b.id));
+            }
+            a.children.iter().zip(&b.children).find_map(|(x, y)| same(x, y, ids))
+        }
+        if schema.fields.len() != back.fields.len() || schema.metadata != back.metadata {
+            return Err(("arrow-roundtrip:top-level-differs".into(), String::new()));
+        }
+        if let Some(d) = schema.fields.iter().zip(&back.fields).find_map(|(x, y)| same(x, y, canonical_ids)) {
+            return Err(("arrow-roundtrip:field-attribute-lost".into(), d));
+        }
+        // stored form
+        let fm = FieldsWithMeta::from(&schema);
+        let n_pb = fm.fields.0.len();
+        let back2 = Schema::from(fm);
+        if back2 != schema || back2.metadata != schema.metadata {
+            let d = schema.fields.iter().zip(&back2.fields).find_map(|(x, y)| same(x, y, true)).unwrap_or_default();
+            return Err(("stored-form-roundtrip:differs".into(), format!("{n_pb} protobuf fields; {d}")));
+        }
+        let back3 = Schema::from(&Fields::from(&schema));
+        if back3.fields != schema.fields {
+            return Err(("stored-form-roundtrip[Fields]:differs".into(), String::new()));
+        }
+        Ok(())
+    });
+
+    let depth = m.nodes.values().map(|n| n.path.len()).max().unwrap_or(0);
+    let nt = depth >= 2 && all.len() >= 4;
+    report.case(nt.then(|| hash_of(&("c43", m.nodes.values().map(|n| (&n.path, &n.logical)).collect::<Vec<_>>(), &all))));
+    report.count("operations_checked", ops);
+    report.count("fields_in_schemas", all.len() as u64);
+    if i % 401 == 9 && report.want_sample() {
+        report.sample(json!({"case": i, "fields": m.nodes.iter().map(|(id, n)| json!({"id": id, "path": n.path, "type": n.logical})).collect::<Vec<_>>()}));
+    }
+    for ((sig, what), ctx) in fails {
+        sink.violation_lazy(&sig, &what, || {
+            json!({"seed": report.seed as i64, "case": i, "detail": what, "context": ctx,
+                "schema": m.nodes.iter().map(|(id, n)| json!({"id": id, "path": n.path, "type": n.logical, "nullable": n.nullable})).collect::<Vec<_>>(),
+                "replay": format!("e_sets C43 --seed {} --case {i}", report.seed as i64)})
+        });
+    }
+}
+
+fn selftest(args: &Args) -> i32 {
+    quiet_panics();
+    let mut a = args.clone();
+    a.prop = "C43-selftest".into();
+    std::env::set_var("VERIF_EVIDENCE_OUT", "/dev/null");
+    let report = Report::new(&a, "exploration", "selftest", (60, 60));
+    let base = Sink::collecting();
+    for i in 1..150 {
+        one_case(&report, &base, i);
+    }
+    let sink = Sink::collecting();
+    CORRUPT_IDS.store(true, Ordering::Relaxed);
+    for i in 1..150 {
+        one_case(&report, &sink, i);
+    }
+    CORRUPT_IDS.store(false, Ordering::Relaxed);
+    let new: Vec<String> = sink.signatures().into_iter().filter(|s| !base.signatures().contains(s)).collect();
+    println!("SELFTEST corrupted-result-ids new signatures={}", new.len());
+    if new.iter().any(|s| s.contains("missing")) {
+        println!("SELFTEST C43 ok");
+        0
+    } else {
+        println!("SELFTEST C43 FAILED");
+        2
+    }
+}
+
+pub fn run(args: &Args) -> i32 {
+    if is_selftest(args) {
+        return selftest(args);
+    }
+    quiet_panics();
+    arm_watchdog(args.tier.pick(300, 1500));
+    let rule = "Seeded random nested schemas (struct / list / large list / fixed size list, depth <= 3, names with dots, backticks, spaces, unicode, duplicates across levels, random metadata and nullability) with random injective id assignments (canonical, sparse, descending, shuffled). Per schema: resolve/field/field_path for every field through an independently rendered quoted path; project / project_or_drop; project_by_ids (both modes); exclude / intersection / merge against harness-built sub-schemas; Projection union/subtract/intersect by projection, schema, predicate and column, to_schema; Arrow and stored-form (Fields / FieldsWithMeta) round trips. Oracle: ancestor-closed id sets and per-field attribute equality. Non-trivial: schema with nesting depth >= 2 and >= 4 fields; signature = field paths, types and ids.";
+    let report = Report::new(args, "exploration", rule, (40, 480)).with_min_nontrivial(300);
+    let sink = Sink::to_report(&report);
+    if let Some(c) = args.extra.get("case").and_then(|c| c.parse::<u64>().ok()) {
+        one_case(&report, &sink, c);
+        sink.flush();
+        return report.finish();
+    }
+    let max_cases = args.tier.pick(300_000u64, 20_000_000);
+    fan_out(n_threads(), 1, max_cases, &|| report.time_left(), &|i| one_case(&report, &sink, i));
+    report.assume("project_by_ids(include_all_children=false) is driven with leaf ids plus any of their ancestors (a listed parent without listed children is ambiguous in the docs)");
+    report.assume("missing nested path segments are not generated for project(); empty field names are not addressed by path");
+    report.assume("Arrow carries no field ids: ids are compared through the Arrow round trip only when they were the canonical pre-order numbering");
+    sink.flush();
+    report.finish()
 }
